@@ -13,8 +13,9 @@
      merge_so_instance_type               merge.rs:610-657    [merge_ty]
      merge_so_format                      merge.rs:671-685    [merge_fmt]
      merge_so_number / merge_so_string    merge.rs:687-711    [merge_nv/merge_sv]  (`unimplemented!` = MPanic)
-     merge_so_array                       merge.rs:713-903    [merge_arr]  items None/Single combinations;
-                                                               tuple x (single|tuple) = MUnsupp
+     merge_so_array, merge_items_array    merge.rs:713-933    [merge_arr, items_loop, pad]  every items combination
+                                                               (absent/single/tuple), padding of tuples with their
+                                                               own additionalItems, max_items cut-off
      merge_so_object, filter_prop,
      merge_additional(_properties)        merge.rs:946-1096   [merge_obj, filter_prop, merge_ap]
      Roughly                              merge.rs:1098-1245  [roughly]
@@ -324,6 +325,30 @@ Section Merge.
       | Some x, Some y => mbind (or_false (mrg x y)) (fun s => MOk (Some s))
       end.
 
+    (* merge_items_array (merge.rs:905-933): pairwise merge of item schemas; stops at max_items (no
+       additional items allowed then), or at the first unmergeable pair (never if fewer than
+       min_items.unwrap_or(1) items were merged, else the tuple ends there) *)
+    Fixpoint items_loop (pairs : list (schema * schema)) (len : nat) (mn mx : option N)
+      : mres (list schema * bool) :=
+      match pairs with
+      | [] => MOk ([], true)
+      | (x, y) :: rest =>
+          match mrg x y with
+          | MOk s =>
+              if match mx with Some m => N.eqb (N.of_nat (S len)) m | None => false end
+              then MOk ([s], false)
+              else mbind (items_loop rest (S len) mn mx) (fun r => MOk (s :: fst r, snd r))
+          | MNever =>
+              if N.ltb (N.of_nat len) (match mn with Some m => m | None => 1%N end) then MNever
+              else MOk ([], false)
+          | MPanic => MPanic
+          | MUnsupp => MUnsupp
+          end
+      end.
+
+    Definition pad (l : list schema) (d : option schema) (n : nat) : list schema :=
+      l ++ repeat (match d with Some x => x | None => SBool true end) (n - length l).
+
     (* merge_so_array *)
     Definition merge_arr (a b : arrg) : mres arrg :=
       let '(ik, items, ai, mni, mxi, uq) := a in
@@ -335,12 +360,41 @@ Section Merge.
         let mn := choose N.max mni mni' in
         let u := uq || uq' in
         if min_gt_max mn mx then MNever else
+        (* items absent on one side, a tuple on the other: the tuple, cut at max_items *)
+        let none_tuple := fun (its : list schema) (add : option schema) =>
+          match mx with
+          | Some m => if N.leb m (N.of_nat (length its))
+                      then MOk (ItemsTuple, firstn (N.to_nat m) its, None, mn, mx, u)
+                      else MOk (ItemsTuple, its, add, mn, mx, u)
+          | None => MOk (ItemsTuple, its, add, mn, mx, u)
+          end in
+        (* a single schema against a tuple [its] with additionalItems [add]: (item, single) pairs *)
+        let single_tuple := fun (s : schema) (its : list schema) (add : option schema) =>
+          mbind (items_loop (map (fun i => (i, s)) its) 0 mn mx) (fun r =>
+            if snd r then
+              mbind (match add with None => MOk s | Some x => mrg x s end) (fun am =>
+                MOk (ItemsTuple, fst r, Some am, mn, mx, u))
+            else MOk (ItemsTuple, fst r, None, mn, Some (N.of_nat (length (fst r))), u)) in
         match ik, items, ik', items' with
         | ItemsAbsent, _, ItemsAbsent, _ => MOk (ItemsAbsent, [], None, mn, mx, u)
         | ItemsAbsent, _, ItemsSingle, [s] | ItemsSingle, [s], ItemsAbsent, _ =>
             MOk (ItemsSingle, [s], None, mn, mx, u)
+        | ItemsAbsent, _, ItemsTuple, its => none_tuple its ai'
+        | ItemsTuple, its, ItemsAbsent, _ => none_tuple its ai
         | ItemsSingle, [s], ItemsSingle, [s'] =>
             mbind (mrg s s') (fun m => MOk (ItemsSingle, [m], None, mn, mx, u))
+        | ItemsSingle, [s], ItemsTuple, its => single_tuple s its ai'
+        | ItemsTuple, its, ItemsSingle, [s] => single_tuple s its ai
+        | ItemsTuple, ia, ItemsTuple, ib =>
+            (* each side padded with ITS OWN additionalItems (absent = true) up to the longer length *)
+            let n := Nat.max (length ia) (length ib) in
+            mbind (items_loop (combine (pad ia ai n) (pad ib ai' n)) 0 mn mx) (fun r =>
+              if snd r then
+                mbind (match ai, ai' with
+                       | None, None => MOk (Some (SBool true))      (* merge_additional_items *)
+                       | _, _ => merge_ap ai ai'
+                       end) (fun am => MOk (ItemsTuple, fst r, am, mn, mx, u))
+              else MOk (ItemsTuple, fst r, None, mn, Some (N.of_nat (length (fst r))), u))
         | _, _, _, _ => MUnsupp
         end.
 
